@@ -136,6 +136,10 @@ M = [
     ('C20', 'PGPMessage.new[sens', 'pgpy.pgp', "            lit.filename = '_CONSOLE' if sensitive else os.path.basename(filename)", '            lit.filename = os.path.basename(filename)'),
     ('C20', 'PGPMessage.parse[cleartext', 'pgpy.pgp', '                self |= PGPSignature() | pkt\n\n        else:', '                self |= PGPSignature()\n\n        else:'),
     ('C20', 'PGPMessage.__or__', 'pgpy.pgp', '        if isinstance(other, (PKESessionKey, SKESessionKey)):\n            self._sessionkeys.append(other)\n            return self', '        if isinstance(other, (PKESessionKey, SKESessionKey)):\n            return self'),
+    ('C09', 'partial chain', 'pgpy.types', '                    return (self.bytes_to_int(b[offset + 1:offset + 5]), 5, False)', '                    return (self.bytes_to_int(b[1:5]), 5, False)'),
+    ('C09', 'partial chain', 'pgpy.types', '                    return (1 << (fo & 0x1f), 1, True)', '                    return (1 << (fo & 0x0f), 1, True)'),
+    ('C09', 'partial chain', 'pgpy.types', '                    del b[total:total + size]', '                    del b[total:total + 1]'),
+    ('C09', 'partial chain', 'pgpy.types', '            if partial:\n                total = part_len', '            if partial:\n                total = part_len + 1'),
 ]
 
 
